@@ -59,7 +59,8 @@ def gen_doc(rng):
     has_conda = rng.random() < 0.75
     if has_conda:
         doc["packages.conda"] = {n: md() for n in names(nco, ".conda")}
-    pre = rng.choice(["none", "none", "stale", "otherkey", "nondict", "empty", "partial"])
+    seed_hex = gkeys.key(rng.randrange(8)).seed.hex() if rng.random() < 0.7 else rng.randbytes(32).hex()
+    pre = rng.choice(["none", "none", "stale", "otherkey", "nondict", "empty", "partial", "samekey_stale", "samekey_stale", "samekey_fresh"])
     allnames = list(doc["packages"]) + list(doc.get("packages.conda", {}))
     if pre == "stale":
         doc["signatures"] = {"gone-1.0-0.tar.bz2": {"ab" * 32: {"signature": "cd" * 64}}}
@@ -75,6 +76,16 @@ def gen_doc(rng):
         doc["signatures"] = {}
     elif pre == "partial":
         doc["signatures"] = {n: {} for n in allnames[::2]}
+    elif pre in ("samekey_stale", "samekey_fresh"):
+        # the file was signed earlier with the SAME key ...
+        k = gkeys.from_seed_hex(seed_hex)
+        doc["signatures"] = expected_doc(doc, k)["signatures"]
+        if pre == "samekey_stale":
+            # ... and some artifacts' metadata were edited in place afterwards (hotfix), signatures left behind
+            for sec in ("packages", "packages.conda"):
+                for n in list(doc.get(sec, {}))[::2]:
+                    md0 = doc[sec][n]
+                    doc[sec][n] = dict(md0, hotfix=rng.randrange(1000)) if isinstance(md0, dict) else [md0, "hotfix"]
     extra = rng.random() < 0.5
     if extra:
         doc["removed"] = [jsonvals.rand_string(rng, 5)]
@@ -83,8 +94,7 @@ def gen_doc(rng):
             doc[jsonvals.rand_string(rng, 5) or "x"] = jsonvals.rand_value(rng, 0, 2, 3)
     items = list(doc.items())
     rng.shuffle(items)
-    return {"kind": "doc", "doc": dict(items), "seed": gkeys.key(rng.randrange(8)).seed.hex() if rng.random() < 0.7 else
-            rng.randbytes(32).hex(), "pre": pre, "extra": extra}
+    return {"kind": "doc", "doc": dict(items), "seed": seed_hex, "pre": pre, "extra": extra}
 
 
 def expected_doc(doc, key):
